@@ -772,14 +772,16 @@ def run(ctx):
         nonlocal _t0
         timing[name] = round(_time.time() - _t0, 1)
         _t0 = _time.time()
+    # T5: the current source of is_internal_attribute, is_safe_attribute, getattr and getitem, interpreted
+    # in Coq, equals the model functions for every table, object tree and name / key.  coqc compiles the
+    # regenerated files in worker threads while the proof re-check and the streams run; every obligation
+    # is compiled on every run and joined (and judged) at the end of run()
+    finish_equations = sbx_src_tie.start_source_equations_paths(ctx)
+    # regenerated routing decision table of the compiler's visitors (what C17_codegen_no_raw_attr relies on)
+    finish_routes = sbx_src_tie.start_routing_table(ctx)
+    lap("translate_source")
     ctx.proof("C17")
     lap("proof")
-    # T5: the current source of is_internal_attribute, is_safe_attribute, getattr and getitem, interpreted
-    # in Coq, equals the model functions for every table, object tree and name / key
-    sbx_src_tie.source_equations_paths(ctx)
-    # regenerated routing decision table of the compiler's visitors (what C17_codegen_no_raw_attr relies on)
-    sbx_src_tie.routing_table(ctx)
-    lap("source_equations_and_routes")
     facts = regenerate(ctx)
     lap("regenerated_tables")
     env = SandboxedEnvironment()
@@ -828,6 +830,10 @@ def run(ctx):
         ctx.count("render_host_format_" + mode)
         if ok:
             ctx.validated()
+    lap("host_format_stream")
+    finish_equations()
+    finish_routes()
+    lap("wait_for_source_equations_and_routes")
 
 
 def replay(ctx, data):
